@@ -65,18 +65,27 @@ def exact_unit(nm, n, assume, tier, reval=0, expect=120, note=''):
     defs = ['VERIF_N=%d' % n, 'VERIF_REVALIDATE=%d' % reval]
     if assume:
         defs.append('VERIF_HDR_ASSUME=%s' % assume)
-    UNITS.append(dict(name='C01.hdr.exact.%s' % nm, props=['C01', 'C10', 'C12'] if reval else ['C01', 'C10'], kind='B', route='plain', tus=EXACT_TUS,
+    UNITS.append(dict(name='C01.hdr.exact.%s' % nm, props=['C01', 'C10', 'C12'] if reval else ['C01', 'C10'], kind='B', route='stub', tus=EXACT_TUS, replace_calls={'_dbus_validate_body_with_reason': 'verif_stub_validate_body'},
                       harness='harness/c01h_exact.c', extra_sources=[ASSERT, 'stubs/list_as_stack.c', 'stubs/c07_mem.c'], defines=defs,
                       unwind=n + 3, timeout=3000, tier=tier, expect_s=expect, trace_is_execution=True, replay_family='header', replay_fn='load',
                       bounds={'header_bytes': n, 'skeleton': note or 'none (every byte symbolic)', 'byte_order': 'both',
                               'excluded': 'field values containing a nested variant (the reference decoder does not decode them)'},
                       functions=[dict(name='_dbus_header_have_message_untrusted / _dbus_header_load / load_and_validate_field / check_mandatory_fields', file=HDR, status='bounded'),
                                  dict(name='_dbus_header_get_field_raw/_basic/_get_serial/_get_message_type/_get_flag' + ('/_dbus_header_cache_revalidate' if reval else ''), file=HDR, status='bounded'),
-                                 dict(name='_dbus_validate_body_with_reason, name validators', file=VAL, status='bounded'),
+                                 dict(name='_dbus_validate_interface/_member/_error_name/_bus_name', file=VAL, status='bounded'),
+                                 dict(name='_dbus_validate_body_with_reason (on the header signature)', file=VAL, status='stub', note='answers as the reference decoder (marshalling well-formedness of yyyyuua(yv)); the real validator on variant signatures is out of reach of symbolic execution (pointer alignment)'),
                                  dict(name='_dbus_type_reader_* (values reader)', file=REC, status='bounded'),
                                  dict(name='_dbus_list_* in the signature validator', file='dbus/dbus-list.c', status='assumed', note='LIFO stack stub')],
                       assumptions=['dbus-list behaves as a LIFO stack of integers in the signature validator (stub, not verified)',
                                    'the header string has capacity for the copy (no reallocation inside _dbus_string_copy_len)']))
 
 
+# skeletons: the variant signature bytes (length, type code, NUL) of each field are concrete, everything else is symbolic:
+# byte order, type, flags, version, body length, serial, fields-array length, field codes, values, string lengths and contents
+# (assigned, not assumed: symbolic execution must see them as constants to follow the signature)
+SK_U = "in_buf[17]=1;in_buf[18]='u';in_buf[19]=0;"
+SK_UU = "in_buf[17]=1;in_buf[18]='u';in_buf[19]=0;in_buf[25]=1;in_buf[26]='u';in_buf[27]=0;"
+SK_S = "in_buf[17]=1;in_buf[18]='s';in_buf[19]=0;"
+SK_O = "in_buf[17]=1;in_buf[18]='o';in_buf[19]=0;"
+SK_G = "in_buf[17]=1;in_buf[18]='g';in_buf[19]=0;"
 exact_unit('n24', 24, None, 'quick')
